@@ -163,10 +163,13 @@ def part_single(task):
         n += 1
         nontriv += 1
         try:
-          back = conv.to_parameter_values(a.copy())[0]
+          a2 = a.copy()
+          back = conv.to_parameter_values(a2)[0]
         except Exception as e:  # pylint: disable=broad-except
           V('decode-raises', key, 'array %s: %r' % (a.tolist(), e), opts)
           continue
+        if not np.array_equal(a2, a, equal_nan=True):
+          V('feature-array-modified', key, 'decoding changed the feature array it was given: %s -> %s' % (a.tolist(), a2.tolist()), opts)
         bw = None if back is None else back.value
         if clip and not in_domain(pc, bw):
           V('decode-outside-space', key, 'array %s decodes to %r' % (a.tolist(), bw), opts)
@@ -307,11 +310,23 @@ def part_labels(task):
       if not math.isclose(float(l), sign * v, rel_tol=4 * np.finfo(dt).eps, abs_tol=1e-300):
         sig = 'C15|label-sign-convention|%s' % goal
         vios.setdefault(sig, {'sig': sig, 'desc': 'goal %s flip=%s: value %r converts to %r' % (goal, flip, v, float(l)), 'case': {'part': 'labels'}})
-    back = c.to_metrics(lab)
-    for v, b in zip(vals, back):
-      if b is None or not math.isclose(b.value, v, rel_tol=4 * np.finfo(dt).eps, abs_tol=1e-300):
-        sig = 'C15|label-roundtrip|%s' % goal
-        vios.setdefault(sig, {'sig': sig, 'desc': 'goal %s flip=%s dtype=%s: %r -> %r' % (goal, flip, dt.__name__, v, None if b is None else b.value), 'case': {'part': 'labels'}})
+    # both documented label shapes, each decoded twice from the same array; the caller's array is an input, not scratch space
+    for shape_name, arr in (('(num, 1)', np.array(lab).reshape(-1, 1)), ('(num,)', np.array(lab).reshape(-1))):
+      before = arr.copy()
+      for attempt in (1, 2):
+        back = c.to_metrics(arr)
+        for v, b in zip(vals, back):
+          if b is None or not math.isclose(b.value, v, rel_tol=4 * np.finfo(dt).eps, abs_tol=1e-300):
+            sig = 'C15|label-roundtrip|%s' % goal
+            vios.setdefault(sig, {'sig': sig, 'desc': 'goal %s flip=%s dtype=%s labels of shape %s, decode #%d: %r -> %r' % (goal, flip, dt.__name__, shape_name, attempt, v, None if b is None else b.value), 'case': {'part': 'labels'}})
+        if not np.array_equal(arr, before):
+          sig = 'C15|label-array-modified|%s' % goal
+          vios.setdefault(sig, {'sig': sig, 'desc': 'goal %s flip=%s dtype=%s: to_metrics changed the label array of shape %s it was given: %s -> %s' % (goal, flip, dt.__name__, shape_name, before.flatten()[:4].tolist(), arr.flatten()[:4].tolist()), 'case': {'part': 'labels'}})
+    ms_before = [dict((k, m_.value) for k, m_ in m.metrics.items()) for m in ms]
+    c.convert(ms)
+    if [dict((k, m_.value) for k, m_ in m.metrics.items()) for m in ms] != ms_before:
+      sig = 'C15|measurements-modified|%s' % goal
+      vios.setdefault(sig, {'sig': sig, 'desc': 'goal %s flip=%s: convert changed the measurements it was given' % (goal, flip), 'case': {'part': 'labels'}})
     if c.metric_information.goal.name != ('MAXIMIZE' if (flip and goal == 'MINIMIZE') else goal):
       sig = 'C15|label-metric-information|%s' % goal
       vios.setdefault(sig, {'sig': sig, 'desc': 'converter reports goal %s for goal=%s flip=%s' % (c.metric_information.goal.name, goal, flip), 'case': {'part': 'labels'}})
